@@ -1,13 +1,322 @@
-//! C05 — not implemented yet (stub so that props/mod.rs never has to change).
-use crate::engine::PropSpec;
+//! C05 — Check is sound and complete with respect to restorability.
+//!
+//! Generated: small repositories from backup/forget/prune histories (incl. duplicate blobs and
+//! packs marked for deletion); then EVERY stored file except the config x fault kinds {remove,
+//! truncate to several lengths, flip a bit in every region (nonce, body, tag, each blob, pack
+//! header, length field), swap with siblings, and for index files duplicate / drop one entry}.
+//! Oracle: E = "check --read-data returned Err, panicked or reports an Error-level finding",
+//! R = "every snapshot in the repository lists and dumps exactly its model content".
+//! Undamaged: not E and R. Every damaged state: R or E (equivalently: not E implies R).
+
+use std::sync::Arc;
+
+use proptest::prelude::*;
+use rustic_core::{FileType, Id};
+use serde::{Deserialize, Serialize};
+use vpcore::fmt::{decode_file, encode_file, next_nonce, parse_index, sha256};
+
+use crate::{
+    engine::{Ctx, DynSub, Outcome, PropSpec, Sub},
+    r#gen::tree,
+    history::{HOp, World, hop},
+    inspect::{pack_info, to_id},
+    membe::{Files, Storage, id_bytes, tfrom, tidx},
+    model::{Flat, MNode},
+    repo::{CheckVerdict, CmpOpts, RepoCfg, check_verdict, compare, open_full, open_repo, read_snapshot, repo_cfg},
+};
+
+#[derive(Debug, Clone, Serialize, Deserialize)]
+pub struct Case {
+    pub cfg: RepoCfg,
+    pub tree: MNode,
+    pub ops: Vec<HOp>,
+    /// extra generated positions (scaled into the file) for bit flips and truncations
+    pub positions: Vec<u16>,
+    /// rotate the list of fault states so that the per-case cap reaches all of them over cases
+    pub rotate: u16,
+}
+
+fn strategy(_ctx: &Ctx) -> BoxedStrategy<Case> {
+    repo_cfg()
+        .prop_flat_map(|cfg| {
+            let mut p = super::c07::params(&cfg);
+            p.file_cap = 40_000;
+            p.max_children = 3;
+            p.depth = 2;
+            (
+                Just(cfg),
+                tree(p),
+                prop::collection::vec(
+                    hop(p, true).prop_filter("no stale-handle op", |o| {
+                        !matches!(o, HOp::PruneThenStaleBackup { .. } | HOp::CutBackup { .. })
+                    }),
+                    0..5,
+                ),
+                prop::collection::vec(any::<u16>(), 2..5),
+                any::<u16>(),
+            )
+        })
+        .prop_map(|(cfg, tree, ops, positions, rotate)| Case {
+            cfg,
+            tree,
+            ops,
+            positions,
+            rotate,
+        })
+        .boxed()
+}
+
+#[derive(Debug, Clone)]
+enum Fault {
+    Remove,
+    Truncate(usize),
+    Flip(usize, u8),
+    Swap(Id),
+    IndexDuplicateEntry,
+    IndexDropEntry,
+}
+
+fn fault_name(f: &Fault) -> &'static str {
+    match f {
+        Fault::Remove => "remove",
+        Fault::Truncate(_) => "truncate",
+        Fault::Flip(..) => "bitflip",
+        Fault::Swap(_) => "swap",
+        Fault::IndexDuplicateEntry => "index_duplicate_entry",
+        Fault::IndexDropEntry => "index_drop_entry",
+    }
+}
+
+/// every snapshot of the repository reads back as its model
+fn restorable(storage: &Arc<Storage>, cfg: &RepoCfg, live: &[(rustic_core::repofile::SnapshotFile, Arc<Flat>)]) -> Result<(), String> {
+    let present: Vec<Id> = storage.ids(FileType::Snapshot);
+    if present.is_empty() {
+        return Ok(());
+    }
+    let full = open_full(storage, cfg)?;
+    // what the repository itself lists as its snapshots
+    let all = match crate::engine::guarded(|| full.get_all_snapshots()) {
+        Ok(Ok(a)) => a,
+        Ok(Err(e)) => return Err(format!("snapshots cannot be listed: {}", e.display_log())),
+        Err(p) => return Err(format!("listing snapshots panicked: {p}")),
+    };
+    for s in &all {
+        let Some((_, model)) = live.iter().find(|(l, _)| l.id == s.id) else {
+            // a snapshot file under an id that never was a snapshot of this history (e.g. an index
+            // edit never creates one): cannot happen with the generated faults
+            return Err(format!("unknown snapshot id {}", s.id));
+        };
+        let got = read_snapshot(&full, s, true)?;
+        if let Some(d) = compare(model, &got, &CmpOpts { full_meta: true, content: true }) {
+            return Err(format!("snapshot {}: {d}", s.id));
+        }
+    }
+    Ok(())
+}
+
+fn apply_fault(base: &Files, key: &[u8; 64], tpe: FileType, id: &Id, f: &Fault) -> Option<Files> {
+    let mut files = base.clone();
+    let k = (tidx(tpe), *id);
+    let data = files.get(&k)?.clone();
+    match f {
+        Fault::Remove => {
+            _ = files.remove(&k);
+        }
+        Fault::Truncate(n) => {
+            _ = files.insert(k, data.slice(0..(*n).min(data.len())));
+        }
+        Fault::Flip(pos, bit) => {
+            let mut v = data.to_vec();
+            if v.is_empty() {
+                return None;
+            }
+            let p = (*pos).min(v.len() - 1);
+            v[p] ^= 1 << (bit % 8);
+            _ = files.insert(k, v.into());
+        }
+        Fault::Swap(other) => {
+            let ko = (tidx(tpe), *other);
+            let od = files.get(&ko)?.clone();
+            if od == data {
+                return None;
+            }
+            _ = files.insert(k, od);
+            _ = files.insert(ko, data);
+        }
+        Fault::IndexDuplicateEntry | Fault::IndexDropEntry => {
+            let json = decode_file(key, &data).ok()?;
+            let mut idx = parse_index(&json).ok()?;
+            let pack = idx.packs.iter_mut().find(|p| !p.blobs.is_empty())?;
+            if matches!(f, Fault::IndexDuplicateEntry) {
+                let b = pack.blobs[0].clone();
+                pack.blobs.push(b);
+            } else {
+                _ = pack.blobs.remove(0);
+            }
+            let json = serde_json::to_vec(&idx).ok()?;
+            let mut seed = 0xC05;
+            let enc = encode_file(key, &next_nonce(&mut seed), &json, None);
+            _ = files.remove(&k);
+            _ = files.insert((tidx(tpe), to_id(&sha256(&enc))), enc.into());
+        }
+    }
+    Some(files)
+}
+
+pub fn run(c: &Case, ctx: &Ctx) -> Outcome {
+    let mut out = Outcome::pass();
+    macro_rules! fail {
+        ($($arg:tt)*) => {{
+            out.failure = Some(format!($($arg)*));
+            return out;
+        }};
+    }
+    let mut w = match World::new(&c.cfg, &c.tree) {
+        Ok(w) => w,
+        Err(e) => fail!("{e}"),
+    };
+    let first = HOp::Backup { edits: vec![], parent: false };
+    for op in std::iter::once(&first).chain(c.ops.iter()) {
+        if let Err(e) = w.step(op) {
+            fail!("building the repository: {e}");
+        }
+    }
+    if w.live.is_empty() {
+        if let Err(e) = w.step(&first) {
+            fail!("building the repository: {e}");
+        }
+    }
+    let key = c.cfg.key64();
+    let live: Vec<_> = w.live.iter().map(|l| (l.snap.clone(), l.model.clone())).collect();
+    let base = w.storage.files();
+
+    // undamaged: check clean and everything restorable
+    if let Err(e) = restorable(&w.storage, &c.cfg, &live) {
+        fail!("undamaged repository: {e}");
+    }
+    match w.check(true) {
+        CheckVerdict::Errors(e) => fail!("undamaged repository: {e}"),
+        CheckVerdict::Inconclusive(_) => return out.skip("check_inconclusive_on_undamaged"),
+        CheckVerdict::Clean => {}
+    }
+
+    // enumerate fault states
+    let mut states: Vec<(FileType, Id, Fault)> = Vec::new();
+    for ((t, id), data) in &base {
+        let tpe = tfrom(*t);
+        if matches!(tpe, FileType::Config | FileType::Key) {
+            continue;
+        }
+        let n = data.len();
+        states.push((tpe, *id, Fault::Remove));
+        let mut lens = vec![0usize, 1, n / 2, n.saturating_sub(1)];
+        let mut flips = vec![0usize, 15, 16, n / 2, n.saturating_sub(17), n.saturating_sub(1)];
+        for p in &c.positions {
+            lens.push(crate::engine::pick_idx(*p, n + 1));
+            flips.push(crate::engine::pick_idx(p.rotate_left(5), n.max(1)));
+        }
+        if tpe == FileType::Pack {
+            if let Ok(info) = pack_info(&w.storage, &key, &id_bytes(id)) {
+                for e in &info.entries {
+                    // one flip inside every blob (body and its tag)
+                    flips.push(e.offset as usize + (e.length as usize) / 2);
+                    flips.push(e.offset as usize + (e.length as usize).saturating_sub(1));
+                    lens.push(e.offset as usize + e.length as usize);
+                }
+                let hstart = n - 4 - info.header_len as usize;
+                flips.extend([hstart, hstart + 20, n - 5, n - 4, n - 3, n - 1]);
+                lens.extend([hstart, n - 4]);
+            }
+        }
+        lens.sort_unstable();
+        lens.dedup();
+        flips.sort_unstable();
+        flips.dedup();
+        for l in lens {
+            if l < n {
+                states.push((tpe, *id, Fault::Truncate(l)));
+            }
+        }
+        for (i, f) in flips.into_iter().enumerate() {
+            if f < n {
+                states.push((tpe, *id, Fault::Flip(f, (i as u8).wrapping_mul(3))));
+            }
+        }
+        let siblings: Vec<Id> = base.keys().filter(|(t2, i2)| t2 == t && i2 != id).map(|(_, i)| *i).take(4).collect();
+        for s in siblings {
+            if s > *id {
+                states.push((tpe, *id, Fault::Swap(s)));
+            }
+        }
+        if tpe == FileType::Index {
+            states.push((tpe, *id, Fault::IndexDuplicateEntry));
+            states.push((tpe, *id, Fault::IndexDropEntry));
+        }
+    }
+    let total = states.len();
+    let cap = if ctx.tier.is_thorough() { 400 } else { 48 };
+    if total > 0 {
+        let r = usize::from(c.rotate) % total;
+        states.rotate_left(r);
+    }
+    let mut judged = 0u64;
+    let mut detected = 0u64;
+    let mut harmless = 0u64;
+    for (tpe, id, f) in states.into_iter().take(cap) {
+        let Some(files) = apply_fault(&base, &key, tpe, &id, &f) else { continue };
+        let st = Storage::from_files(files);
+        let r = restorable(&st, &c.cfg, &live);
+        let e = match open_repo(st.handle(), &c.cfg) {
+            Ok(repo) => check_verdict(&repo, true),
+            Err(e) => CheckVerdict::Errors(e),
+        };
+        out = out.class(format!("fault_{}_{}", fault_name(&f), tpe));
+        match (&r, &e) {
+            (_, CheckVerdict::Inconclusive(_)) => {
+                out = out.class("check_inconclusive");
+                continue;
+            }
+            (Err(why), CheckVerdict::Clean) => {
+                // an id-swap of two files is the documented known gap
+                if matches!(f, Fault::Swap(_)) {
+                    out = out.known("swapped-files-not-detected");
+                }
+                out.failure = Some(format!(
+                    "after fault `{}` on {tpe} file {id:?} ({f:?}) check --read-data reports no error, but not every snapshot restores: {why}",
+                    fault_name(&f)
+                ));
+                return out;
+            }
+            (Err(_), CheckVerdict::Errors(_)) => detected += 1,
+            (Ok(()), _) => harmless += 1,
+        }
+        judged += 1;
+    }
+    out.nontrivial = detected > 0;
+    out.count("fault_states_judged", judged)
+        .count("faults_breaking_restore_and_reported", detected)
+        .count("faults_not_breaking_restore", harmless)
+        .count("fault_states_enumerable", total as u64)
+}
 
 pub fn spec() -> PropSpec {
     PropSpec {
         id: "C05",
-        level: "exploration",
-        rule: "",
-        assumptions: vec![],
-        subs: vec![],
+        level: "fault_enumeration",
+        rule: "proptest generates (configuration, source tree, history of 0–4 operations incl. two-handle backups = duplicate blobs, duplicated index files, non-instant prunes = marked packs); for every stored snapshot/index/pack file the fault states {remove; truncate to 0, 1, mid, len−1, every blob boundary, header start, generated lengths; flip one bit at offsets 0/15/16 (nonce, first body byte), middle, tag, inside every blob and its tag, header start/body, every byte of the length field, generated offsets; swap content with up to 4 siblings of the same type; for index files duplicate / drop one entry (re-encoded with the independent encoder)} are enumerated; each case judges a rotating window of 48 (quick) / 400 (thorough) of them. Non-trivial = at least one fault that breaks a restore and is reported by check; distinct by hash of the case. Counters: fault_states_judged etc.",
+        assumptions: vec![
+            "single faults only; key and config files are not damaged",
+            "R is evaluated through a freshly opened library handle (list + dump of every file of every snapshot the repository lists)",
+            "the persistent index hand-back race of check is counted as inconclusive",
+        ],
+        subs: vec![Box::new(Sub {
+            name: "faults",
+            cases_quick: 160,
+            cases_thorough: 2500,
+            max_shrink_iters: 40,
+            strategy,
+            run,
+        }) as Box<dyn DynSub>],
         extra: None,
     }
 }
